@@ -239,6 +239,22 @@ func p384Kinds() []kind {
 			x2, y2 := c.CombinedMult(x, y, m.Bytes(), n.Bytes())
 			outPt(o, "P", x2, y2)
 		}},
+		// Q = +-(m/n) G for all small m, n in turn: the projective accumulator
+		// nQ meets the table entry mG in the mixed addition after a few steps
+		{"p384.CombinedMult:fraction", 200, 200, func(r *lib.Rng, k int, o *rec) {
+			mv, nv := int64(1+(k/2)%10), int64(1+(k/20)%10)
+			frac := new(big.Int).Mul(big.NewInt(mv), new(big.Int).ModInverse(big.NewInt(nv), p384N))
+			if k%2 == 1 {
+				frac.Neg(frac)
+			}
+			frac.Mod(frac, p384N)
+			x, y := c.ScalarBaseMult(frac.Bytes())
+			o.In("q", frac.Bytes())
+			o.In("m", []byte{byte(mv)})
+			o.In("n", []byte{byte(nv)})
+			x2, y2 := c.CombinedMult(x, y, []byte{byte(mv)}, []byte{byte(nv)})
+			outPt(o, "P", x2, y2)
+		}},
 	}
 }
 
